@@ -18,6 +18,7 @@ import (
 	"github.com/google/pprof/verif/internal/drv"
 	"github.com/google/pprof/verif/internal/harness"
 	"github.com/google/pprof/verif/internal/mon"
+	"github.com/google/pprof/verif/internal/ref"
 	"github.com/google/pprof/verif/internal/wire"
 )
 
@@ -406,6 +407,29 @@ func runDriver(c *harness.Ctx) harness.Result {
 		return res
 	}
 	c.Stat("driver.reopened", 1)
+	// no filter, no trimming, no symbolization: the saved profile carries the same samples, i.e.
+	// the same values per (frames with every attribute incl. columns, labels), and the same header
+	var pb bytes.Buffer
+	p.WriteUncompressed(&pb)
+	p0, err := profile.ParseUncompressed(pb.Bytes()) // drops what proto3 cannot represent (part gen checks this step)
+	if err != nil {
+		return res
+	}
+	want, _ := ref.SumView(p0)
+	qv := q.Copy()
+	if len(p0.Mapping) == 0 {
+		// documented: a profile without mappings gets one fake mapping covering everything
+		c.Stat("driver.fake_mapping", 1)
+		for _, l := range qv.Location {
+			l.Mapping = nil
+		}
+	}
+	got, _ := ref.SumView(qv)
+	if d := ref.DiffSum(want, got); d != "" {
+		res.Verdict = harness.Violated
+		res.Detail = "pprof -proto output does not carry the samples of its input (per frames+labels):\n" + d
+		return res
+	}
 	for _, f := range []string{"raw", "traces"} {
 		a, e1 := render(p, f)
 		b, e2 := render(q, f)
